@@ -170,6 +170,9 @@ pub fn swarm(prop: &str, seed: u64) -> (GenCfg, Suffix, Shape) {
             c.events = r.range(6, 40);
             shape = Shape::Prefix;
             suffix = Suffix::DropNow;
+            // fault kind: a destructor that unwinds, also while the arena itself is being dropped
+            // (armed by an event; whichever destructor comes n-th afterwards fires it)
+            c.w_event[EW_DROP_FAULT] = if r.chance(1, 3) { 3 } else { 0 };
         }
         "C05" => {
             c.w_op[OW_WEAK_LINK] = 6;
@@ -318,7 +321,7 @@ pub fn swarm(prop: &str, seed: u64) -> (GenCfg, Suffix, Shape) {
             c.w_op[OW_STASH] = 2;
             c.w_op[OW_RELINK] = 5;
             c.w_op[OW_UNLINK] = 5;
-            c.kinds = vec![(KindChoice::Fixed(Kind::Node), 8), (KindChoice::Fixed(Kind::Field), 2), (KindChoice::Slice, 3), (KindChoice::Swh, 3), (KindChoice::Lay, 1)];
+            c.kinds = vec![(KindChoice::Fixed(Kind::Node), 8), (KindChoice::Fixed(Kind::Field), 2), (KindChoice::Slice, 3), (KindChoice::Swh, 3), (KindChoice::Lay, 1), (KindChoice::LayClass(1), 3), (KindChoice::LayClass(2), 1)];
             c.max_handles = c.max_handles.max(2);
         }
         "C20" => {
